@@ -231,7 +231,7 @@ def desc_line(d):
 
 
 def desc_show(d):
-    return desc_line(d) + (" [body variant %d]" % d["body"] if d.get("body") else "") + ("".join(" [an unknown element %s the stanza's own children]" % ("before" if k == "lead" else "after") for k in ("lead", "trail") if d.get(k)))
+    return desc_line(d) + (" [body variant %d]" % d["body"] if d.get("body") else "") + ("".join(" [an unknown element %s the stanza's own children]" % ("before" if k == "lead" else "after") + (" (with %d bytes of data)" % d[k] if d[k] > 1 else "") for k in ("lead", "trail") if d.get(k)))
 
 
 def observe_recv(chk, case, seq):
@@ -362,7 +362,7 @@ def _recv_once(chk, case, seq):
         fails.append(oracle("C06:incoming-duplicated", "stanza %s (modules %s) produced %d entities: %s" % (desc_show(d), case["flags"], len(ups), ups)))
     # ---- oracle (C06): a stanza of a kind that is supported in every module selection produces exactly one entity
     must = None
-    if d["tag"] in ("receipt", "ack", "presence", "chatstate"):
+    if d["tag"] in ("receipt", "ack", "presence", "chatstate", "call"):   # (the calls layer belongs to every selection: offers and every other call stanza)
         must = d["tag"]
     elif d["tag"] == "message" and d.get("hasProto") and d.get("mtype") == "text" and d.get("media", "absent") == "absent" and d.get("payload") in ("conversation", "extendedText"):
         must = "text message"
